@@ -81,6 +81,20 @@ def evaluate(case):
             g2 = O.dec_outcome(stripped)
             if g2 != ref:
                 fail = Fail("nop:delete", base=base[:300], stripped=stripped[:300], want=ref, got=g2, table=spec)
+    if fail is None and case.get("attr") and ref[0] == "ok":
+        # with attribute=True the return value includes the attribution, whose input positions ignore [nop]
+        def attributed(x):
+            r = call(sf.decoder, x, attribute=True, expected=(sf.DecoderError,))
+            if r[0] != "ok":
+                return r[:2]
+            try:
+                return ("ok", r[1][0], [[a.index, a.token, [[q.index, q.token] for q in (a.attribution or [])]] for a in r[1][1]])
+            except Exception:  # noqa
+                return ("shape", repr(r[1])[:100])
+        a = attributed(base)
+        b = attributed(s2)
+        if a != b:
+            fail = Fail("nop:attributed_result_differs", base=base[:300], decorated=s2[:400], want=str(a)[:300], got=str(b)[:300])
     if fail is None and case.get("compat"):
         a = O.dec_outcome(base, compatible=True)
         b = O.dec_outcome(s2, compatible=True)
@@ -116,6 +130,8 @@ def evaluate(case):
             classes.append("nop_next_to_dot")
     if case.get("compat"):
         classes.append("compatible_flag")
+    if case.get("attr"):
+        classes.append("attribute_flag")
     return Result(fail, nontrivial, tuple(set(classes)), sample=sample)
 
 
@@ -145,7 +161,7 @@ def gen_case(ch):
             positions.append(ch.pick([0, len(toks)]))
         else:
             positions.append(ch.int(0, len(toks)))
-    return dict(table=spec, toks=toks, positions=sorted(positions), compat=ch.bool(25))
+    return dict(table=spec, toks=toks, positions=sorted(positions), compat=ch.bool(25), attr=ch.bool(30))
 
 
 def shard(ctx):
